@@ -347,7 +347,7 @@ Lemma env_view_root_map L :
 Proof.
   induction L as [|e r IH]; intro H; [left; reflexivity|].
   right. rewrite env_view_cons. destruct (H e (or_introl eq_refl)) as (s & t & E).
-  unfold contrib. rewrite E. simpl. destruct (env_view r []); reflexivity.
+  destruct e as [pe ve]. simpl in E. subst pe. unfold contrib. simpl. destruct (env_view r []); reflexivity.
 Qed.
 
 Lemma env_view_root_lst n L :
@@ -356,7 +356,7 @@ Lemma env_view_root_lst n L :
 Proof.
   induction L as [|e r IH]; intro H; [left; reflexivity|].
   right. rewrite env_view_cons. destruct (H e (or_introl eq_refl)) as (i & t & E & Hi).
-  unfold contrib. rewrite E. simpl.
+  destruct e as [pe ve]. simpl in E. subst pe. unfold contrib. simpl.
   destruct IH as [-> | (k & Hk & ->)]; [intros e' He'; apply H; right; assumption | |].
   - exists (S i). split; [lia | reflexivity].
   - exists (Nat.max k (S i)). split; [lia | reflexivity].
@@ -382,9 +382,10 @@ Theorem split_shows : forall t, split_goal t.
 Proof.
   induction t as [| v | m IH | l IH] using cfg_ind'; intros sel p T.
   - simpl. rewrite view_Nil. reflexivity.
-  - unfold sel_leaves. simpl. destruct (sel []); simpl.
-    + rewrite view_Nil, njoin_none_l. unfold env_view. simpl. rewrite njoin_none_l. apply contrib_nil_path.
-    + apply njoin_none_r.
+  - unfold sel_leaves. cbn [leaves filter fst keep]. destruct (sel []).
+    + rewrite view_Nil, njoin_none_l. rewrite env_view_cons. change (env_view [] p) with NNone.
+      rewrite njoin_none_l. apply contrib_nil_path.
+    + change (env_view [] p) with NNone. apply njoin_none_r.
   - destruct (Tidy_Map_inv _ T) as [ND FE].
     unfold sel_leaves. rewrite keep_Map, leaves_Map. destruct p as [|[s|i] q].
     + destruct (env_view_root_map (filter (fun e => sel (fst e)) (leaves_map m))) as [-> | ->]; [|reflexivity..].
@@ -392,7 +393,7 @@ Proof.
     + apply split_map; assumption.
     + rewrite env_view_all_none; [reflexivity|].
       intros e He. apply filter_In in He as [He _]. apply leaves_map_heads in He as (s & r & E).
-      unfold contrib. rewrite E. reflexivity.
+      destruct e as [pe ve]. simpl in E. subst pe. reflexivity.
   - assert (FT := Tidy_Lst_inv _ T).
     unfold sel_leaves. rewrite keep_Lst, leaves_Lst. destruct p as [|[s|i] q].
     + simpl view. rewrite keep_lst_length.
@@ -402,10 +403,224 @@ Proof.
       * simpl. f_equal. lia.
     + rewrite env_view_all_none; [reflexivity|].
       intros e He. apply filter_In in He as [He _]. apply leaves_lst_heads in He as (i & r & E & _).
-      unfold contrib. rewrite E. reflexivity.
+      destruct e as [pe ve]. simpl in E. subst pe. reflexivity.
     + apply split_lst; assumption.
 Qed.
 
 Corollary split_of_keep c sel :
   Tidy (Map c) -> split_of c (keep_map sel c) (sel_leaves sel (Map c)).
 Proof. intros T p. rewrite <- keep_Map. apply split_shows. assumption. Qed.
+
+(* ------------------------------------------------------------------ the pieces stay inside the domain *)
+
+Definition keq (a b : node) : bool :=
+  match a, b with
+  | NNone, NNone | NMap, NMap | NLeaf _, NLeaf _ | NLst _, NLst _ => true
+  | _, _ => false
+  end.
+
+(** [x] is silent or of the kind of [y] *)
+Definition sub (x y : node) : Prop := x = NNone \/ keq x y = true.
+
+Lemma sub_refl x : sub x x.
+Proof. destruct x; [left; reflexivity | right; reflexivity ..]. Qed.
+
+Lemma sub_none y : sub NNone y.
+Proof. left; reflexivity. Qed.
+
+Lemma sub_kcompat x y z : sub x y -> kcompat z y = true -> kcompat z x = true.
+Proof. intros [-> | H] K; [apply kcompat_none_r|]. destruct x, y, z; simpl in *; try discriminate; reflexivity. Qed.
+
+Lemma sub_sub_kcompat x z y : sub x y -> sub z y -> kcompat x z = true.
+Proof.
+  intros [-> | H] [-> | H']; try reflexivity; try apply kcompat_none_r.
+  destruct x, y, z; simpl in *; try discriminate; reflexivity.
+Qed.
+
+Lemma view_keep_sub : forall t sel p, Tidy t -> sub (view p (keep sel t)) (view p t).
+Proof.
+  induction t as [| v | m IH | l IH] using cfg_ind'; intros sel p T.
+  - apply sub_refl.
+  - simpl. destruct (sel []); [rewrite view_Nil; apply sub_none | apply sub_refl].
+  - destruct (Tidy_Map_inv _ T) as [ND FE]. rewrite keep_Map. destruct p as [|[s|i] q].
+    + right. reflexivity.
+    + rewrite (keep_map_lookup sel m s ND FE eq_refl q). simpl view.
+      destruct (lookup (K s) m) as [v|] eqn:E; [|apply sub_none].
+      apply lookup_In in E. rewrite Forall_forall in IH, FE. destruct (FE _ E) as (_ & _ & Tv).
+      apply (IH _ E). assumption.
+    + apply sub_refl.
+  - assert (FT := Tidy_Lst_inv _ T). rewrite keep_Lst. destruct p as [|[s|i] q].
+    + right. simpl. reflexivity.
+    + apply sub_refl.
+    + rewrite keep_lst_nth. simpl view.
+      destruct (nth_error l i) as [v|] eqn:E; [|apply sub_none].
+      apply nth_error_In in E. rewrite Forall_forall in IH, FT. apply (IH _ E). apply FT. assumption.
+Qed.
+
+Lemma leaves_map_in m e :
+  In e (leaves_map m) -> exists k v e', In (k, v) m /\ (exists s, fst k = [s] /\ e = shift (SK s) e') /\ In e' (leaves v).
+Proof.
+  induction m as [|[k v] m' IH]; simpl; [tauto|]. intro H. apply in_app_or in H as [H|H].
+  - destruct (fst k) as [|s [|s2 ss]] eqn:Ek; simpl in H; try tauto.
+    apply in_map_iff in H as (e' & <- & He'). exists k, v, e'. splits; eauto.
+  - destruct (IH H) as (k' & v' & e' & A & B0 & C). exists k', v', e'. splits; auto.
+Qed.
+
+Lemma leaves_lst_in : forall l j e,
+  In e (leaves_lst j l) -> exists i v e', nth_error l i = Some v /\ e = shift (SI (j + i)) e' /\ In e' (leaves v).
+Proof.
+  induction l as [|v r IH]; intros j e H; [contradiction|].
+  rewrite leaves_lst_cons in H. apply in_app_or in H as [H|H].
+  - apply in_map_iff in H as (e' & <- & He'). exists 0, v, e'. rewrite Nat.add_0_r. splits; auto.
+  - destruct (IH (S j) e H) as (i & v' & e' & A & B0 & C). exists (S i), v', e'.
+    replace (j + S i) with (S j + i) by lia. splits; auto.
+Qed.
+
+Lemma contrib_leaf_sub : forall t e p, Tidy t -> In e (leaves t) -> sub (contrib p e) (view p t).
+Proof.
+  induction t as [| v | m IH | l IH] using cfg_ind'; intros e p T Hin.
+  - contradiction.
+  - simpl in Hin. destruct Hin as [<-|[]]. rewrite contrib_nil_path. apply sub_refl.
+  - destruct (Tidy_Map_inv _ T) as [ND FE]. rewrite leaves_Map in Hin.
+    apply leaves_map_in in Hin as (k & v & e' & Hkv & (s & Hs & ->) & He').
+    rewrite Forall_forall in IH, FE. destruct (FE _ Hkv) as ((s' & Hk) & _ & Tv). simpl in Hk.
+    subst k. simpl in Hs. inv Hs. simpl in Tv.
+    destruct p as [|[s1|i] q].
+    + right. reflexivity.
+    + destruct (String.eqb s1 s) eqn:E.
+      * apply String.eqb_eq in E. subst s1. rewrite contrib_shift_same. simpl view.
+        rewrite (NoDup_lookup (K s) v m ND Hkv). apply (IH _ Hkv). assumption. assumption.
+      * rewrite contrib_shift_other by (apply seg_SK_neq; assumption). apply sub_none.
+    + rewrite contrib_shift_other by discriminate. apply sub_none.
+  - assert (FT := Tidy_Lst_inv _ T). rewrite leaves_Lst in Hin.
+    apply leaves_lst_in in Hin as (i & v & e' & Hn & -> & He'). simpl.
+    destruct p as [|[s1|i1] q].
+    + right. reflexivity.
+    + rewrite contrib_shift_other by discriminate. apply sub_none.
+    + destruct (Nat.eqb i1 i) eqn:E.
+      * apply Nat.eqb_eq in E. subst i1. rewrite contrib_shift_same. simpl view. rewrite Hn.
+        assert (Hv : In v l) by (eapply nth_error_In; eauto).
+        rewrite Forall_forall in IH, FT. apply (IH _ Hv); auto.
+      * rewrite contrib_shift_other; [apply sub_none|]. apply seg_SI_neq. intro; subst. rewrite Nat.eqb_refl in E. discriminate.
+Qed.
+
+Lemma keep_tidy : forall t sel, Tidy t -> Tidy (keep sel t).
+Proof.
+  induction t as [| v | m IH | l IH] using cfg_ind'; intros sel T.
+  - constructor.
+  - simpl. destruct (sel []); constructor.
+  - destruct (Tidy_Map_inv _ T) as [ND FE]. rewrite keep_Map. apply Tidy_Map_intro.
+    + clear IH T. induction m as [|[k v] r IHr]; [constructor|].
+      apply Forall_cons_iff in FE as [((s0 & Hs0) & _) FE']. simpl in Hs0. subst k.
+      simpl in ND. apply NoDup_cons_iff in ND as [Nin ND'].
+      rewrite keep_map_cons.
+      assert (X : NoDup (map fst (keep_map sel r))) by (apply IHr; assumption).
+      assert (Y : ~ In (K s0) (map fst (keep_map sel r))) by (intro H; apply Nin; apply (keep_map_keys sel r); assumption).
+      destruct (keep (fun p => sel (SK s0 :: p)) v); simpl; try assumption; constructor; assumption.
+    + clear T. induction m as [|[k v] r IHr]; [constructor|].
+      apply Forall_cons_iff in FE as [((s0 & Hs0) & Nv & Tv) FE']. simpl in Hs0, Nv, Tv. subst k.
+      apply Forall_cons_iff in IH as [IH0 IHR]. simpl in IH0.
+      simpl in ND. apply NoDup_cons_iff in ND as [Nin ND'].
+      rewrite keep_map_cons.
+      assert (X : Forall entry_ok (keep_map sel r)) by (apply IHr; assumption).
+      assert (Tk := IH0 (fun p => sel (SK s0 :: p)) Tv).
+      destruct (keep (fun p => sel (SK s0 :: p)) v) eqn:Ek; try assumption;
+        (constructor; [unfold entry_ok; simpl; splits; [exists s0; reflexivity | discriminate | assumption] | assumption]).
+  - assert (FT := Tidy_Lst_inv _ T). rewrite keep_Lst. constructor. clear T.
+    generalize 0. induction l as [|v r IHr]; intro j; [constructor|].
+    apply Forall_cons_iff in IH as [IH0 IHR]. apply Forall_cons_iff in FT as [Tv FT'].
+    rewrite keep_lst_cons. constructor; [apply IH0; assumption | apply IHr; assumption].
+Qed.
+
+Lemma NoDup_map_shift a (L : list (path * string)) :
+  NoDup (map fst L) -> NoDup (map fst (map (shift a) L)).
+Proof.
+  rewrite map_map. simpl. intro H. induction L as [|e r IH]; simpl in *; [constructor|].
+  apply NoDup_cons_iff in H as [H1 H2]. constructor; [|auto].
+  intro Hin. apply H1. apply in_map_iff in Hin as (e' & E & He'). inv E. apply in_map. assumption.
+Qed.
+
+Lemma leaves_nodup : forall t, Tidy t -> NoDup (map fst (leaves t)).
+Proof.
+  induction t as [| v | m IH | l IH] using cfg_ind'; intro T.
+  - constructor.
+  - simpl. constructor; [simpl; tauto | constructor].
+  - destruct (Tidy_Map_inv _ T) as [ND FE]. rewrite leaves_Map. clear T.
+    induction m as [|[k v] r IHr]; [constructor|].
+    apply Forall_cons_iff in FE as [((s0 & Hs0) & _ & Tv) FE']. simpl in Hs0, Tv. subst k.
+    apply Forall_cons_iff in IH as [IH0 IHR]. simpl in IH0.
+    simpl in ND. apply NoDup_cons_iff in ND as [Nin ND'].
+    rewrite leaves_map_cons, map_app. apply NoDup_app_intro.
+    + apply NoDup_map_shift. apply IH0. assumption.
+    + apply IHr; assumption.
+    + intros p H1 H2. apply in_map_iff in H1 as (e1 & <- & H1). apply in_map_iff in H1 as (e1' & <- & _).
+      apply in_map_iff in H2 as (e2 & E2 & H2). apply leaves_map_in in H2 as (k & v' & e' & Hkv & (s & Hs & ->) & _).
+      simpl in E2. inv E2. apply Nin. apply in_map_iff. exists (k, v'). split; [|assumption].
+      rewrite Forall_forall in FE'. destruct (FE' _ Hkv) as ((s' & Hk) & _). simpl in Hk. subst k. simpl in Hs. inv Hs. reflexivity.
+  - assert (FT := Tidy_Lst_inv _ T). rewrite leaves_Lst. clear T.
+    generalize 0. induction l as [|v r IHr]; intro j; [constructor|].
+    apply Forall_cons_iff in IH as [IH0 IHR]. apply Forall_cons_iff in FT as [Tv FT'].
+    rewrite leaves_lst_cons, map_app. apply NoDup_app_intro.
+    + apply NoDup_map_shift. apply IH0. assumption.
+    + apply IHr; assumption.
+    + intros p H1 H2. apply in_map_iff in H1 as (e1 & <- & H1). apply in_map_iff in H1 as (e1' & <- & _).
+      apply in_map_iff in H2 as (e2 & E2 & H2). apply leaves_lst_in in H2 as (i & v' & e' & _ & -> & _).
+      simpl in E2. inv E2. lia.
+Qed.
+
+Lemma NoDup_map_filter' {A B} (f : A -> B) (p : A -> bool) l : NoDup (map f l) -> NoDup (map f (filter p l)).
+Proof. apply NoDup_map_filter. Qed.
+
+Lemma PW_of_all {A} (R : A -> A -> Prop) l : (forall a b, In a l -> In b l -> R a b) -> PW R l.
+Proof.
+  induction l as [|x r IH]; intro H; constructor.
+  - apply Forall_forall. intros y Hy. apply H; [left; reflexivity | right; assumption].
+  - apply IH. intros a b Ha Hb. apply H; right; assumption.
+Qed.
+
+(** a split of a configuration of the domain is in the domain *)
+Theorem in_scope_split d c sel :
+  in_scope d c [] -> in_scope d (keep_map sel c) (sel_leaves sel (Map c)).
+Proof.
+  intros (Td & Tc & _ & Cdc & _ & _). unfold in_scope.
+  assert (Sk : forall p, sub (view p (Map (keep_map sel c))) (view p (Map c))).
+  { intro p. rewrite <- keep_Map. apply view_keep_sub. assumption. }
+  assert (Sl : forall e, In e (sel_leaves sel (Map c)) -> forall p, sub (contrib p e) (view p (Map c))).
+  { intros e He p. apply filter_In in He as [He _]. apply contrib_leaf_sub; assumption. }
+  splits.
+  - assumption.
+  - rewrite <- keep_Map. apply keep_tidy. assumption.
+  - unfold sel_leaves. apply NoDup_map_filter. apply leaves_nodup. assumption.
+  - intro p. eapply sub_kcompat; [apply Sk | apply Cdc].
+  - apply Forall_forall. intros e He p. split.
+    + eapply sub_kcompat; [apply (Sl e He) | apply Cdc].
+    + eapply sub_sub_kcompat; [apply Sk | apply (Sl e He)].
+  - apply PW_of_all. intros a b Ha Hb p. eapply sub_sub_kcompat; [apply (Sl a Ha) | apply (Sl b Hb)].
+Qed.
+
+(** file/environment equivalence for every split of the leaves: whatever subset
+    [sel] of the leaves of a configuration [c] of the domain is given by
+    environment variables (in any order) instead of the file, the result is the
+    one of the file holding all of [c] *)
+Theorem file_env_equivalent_splits :
+  forall sh sh' to_real pfx d c sel env tenv,
+    perm_fun sh -> perm_fun sh' ->
+    domain to_real pfx d c [] [] ->
+    typed_env to_real (norm_env pfx env) = Some tenv ->
+    Permutation tenv (sel_leaves sel (Map c)) ->
+    guard_F3 (norm_env pfx env) = false -> guard_F4 (norm_env pfx env) = false ->
+    exists t t', load sh to_real false false pfx d (Some (keep_map sel c)) env = Ok t /\
+                 load sh' to_real false false pfx d (Some c) [] = Ok t' /\
+                 Tidy (Map t) /\ Tidy (Map t') /\
+                 forall p, view p (Map t) = view p (Map t').
+Proof.
+  intros sh sh' to_real pfx d c sel env tenv Hs Hs' D Ht P G3 G4.
+  assert (Sc : in_scope d c []) by (destruct D as (_ & S & _); assumption).
+  assert (S0 := in_scope_split d c sel Sc).
+  assert (S1 : in_scope d (keep_map sel c) tenv).
+  { eapply in_scope_perm; [apply Permutation_sym; exact P | exact S0]. }
+  apply (file_env_equivalent sh sh' to_real pfx d c (keep_map sel c) env tenv Hs Hs'); auto.
+  - unfold domain. splits; assumption.
+  - intro p. rewrite (env_view_perm d (keep_map sel c) tenv _ p S1 P).
+    apply split_of_keep. destruct Sc as (_ & Tc & _). assumption.
+Qed.
